@@ -1,15 +1,21 @@
 """C17 — pds / pds_path / pds_t / pds_t_path equal their definition (never smaller; equal under the walk reading)."""
 import itertools
 import graphs as gr
+import c16_util as cu
 
 PROP = "C17"
 RULE = ("every mark graph MARKS(n) n<=3, a seeded sample of MARKS(4) (quick) / MARKS(4) and MARKS(5) (thorough), seeded random "
         "graphs n<=8 with forced collider chains x*->a<->b<->... and triangle chains, stationary time-series PAGs with 2 variables "
         "and max_lag<=2 (edge set replicated over all lags); on each graph every x (no endpoint) and every ordered pair (x,y), "
-        "adjacent or not: pds, pds_path (+ pds_t, pds_t_path on the time-series graphs). Verdict per returned set S: "
+        "adjacent or not, connected or not (y = node 0 is a falsy label): pds, pds_path (+ pds_t, pds_t_path on the time-series "
+        "graphs). REPEAT stream (every graph n<=3 with an edge, 1/3 of the n=4,5 samples, 1/4 of the chain and time-series graphs): "
+        "the object is built for a neighbour graph (one pair re-marked, or one edge re-wired keeping node and edge counts), all "
+        "queries are run and discarded, the SAME object is edited in place into g (read back and checked), then judged; a quarter of "
+        "these are judged on obj.copy(). Falsy labels \"\", (), frozenset() for node 0 (as x and as y) on a third of MARKS(3) and "
+        "an eighth of the chain graphs. Verdict per returned set S: "
         "definition over simple paths not within S => violation; S not within the walk definition (= proved model) => violation; "
         "S strictly larger than the simple-path definition but inside the walk definition => known finding. "
-        "distinct by canonical graph; non-trivial = some pds set contains a node that is not adjacent to x")
+        "distinct by (canonical graph, repeat seed, falsy label); non-trivial = some pds set contains a node that is not adjacent to x")
 EXHAUSTIVE = {"quick": "MARKS(n) n<=3: all graphs, all x, all ordered (x,y)", "thorough": "same (n<=3 exhaustive)"}
 TRUSTED = ["MixedEdgeGraph.neighbors / has_edge / to_undirected and nx.has_path / nx.biconnected_component_edges at face value "
            "(the block of the edge x-y is computed on the model side by its definition: nodes on a simple cycle through x-y)",
@@ -98,28 +104,49 @@ def ts_graph(rng, nv, L):
     return g, lags
 
 
+def _rep(c, rng):
+    return dict(c, rep=rng.randrange(1 << 30), kind=c["kind"] + "-rep")
+
+
 def gen_cases(tier, rng):
     for n in (1, 2, 3):
         qs = all_queries(range(n))
         for g in gr.enum_marks(n):
             yield {"kind": "marks%d" % n, "g": g, "qs": qs}
+    # REPEAT stream: the object is built for a neighbour graph (one pair re-marked, or one edge re-wired keeping the node and edge
+    # counts), queried, edited in place into g, then judged (c16_util.warm_object); every graph n<=3 that has an edge
+    for n in (2, 3):
+        qs = all_queries(range(n))
+        for g in gr.enum_marks(n):
+            if g["D"] or g["B"] or g["U"] or g["C"]:
+                yield _rep({"kind": "marks%d" % n, "g": g, "qs": qs}, rng)
+    # falsy labels ("", (), frozenset()) for node 0: as x and as the optional endpoint y
+    qs = all_queries(range(3))
+    for i, g in enumerate(gr.enum_marks(3)):
+        if i % 3 == 0:
+            yield {"kind": "marks3-falsy", "g": g, "qs": qs, "falsy": (i // 3) % 3}
     for n, cnt in ((4, 1500),) if tier == "quick" else ((4, 8000), (5, 8000)):
         qs = all_queries(range(n))
         for i in range(cnt):
-            p = rng.choice([0.5, 0.7, 0.9])
+            p = rng.choice([0.3, 0.5, 0.7, 0.9])
             g = gr.from_kinds(n, [rng.choice(gr.MARK_KINDS[1:]) if rng.random() < p else "none" for _ in gr.pairs(n)])
-            yield {"kind": "marks%ds" % n, "g": g, "qs": qs}
+            c = {"kind": "marks%ds" % n, "g": g, "qs": qs}
+            yield _rep(c, rng) if i % 3 == 0 else c
     for i in range(400 if tier == "quick" else 4000):
         n = rng.randint(5, 8)
         g = chain_graph(rng, n)
         qs = all_queries(range(n))
         if len(qs) > 30:
             qs = [q for q in qs if not q[1]] + rng.sample([q for q in qs if q[1]], 22)
-        yield {"kind": "chain", "g": g, "qs": qs}
+        c = {"kind": "chain", "g": g, "qs": qs}
+        if i % 8 == 1:
+            c["falsy"] = i % 3
+        yield _rep(c, rng) if i % 4 == 0 else c
     for i in range(200 if tier == "quick" else 2500):
         L = rng.choice([1, 2])
         g, lags = ts_graph(rng, 2, L)
-        yield {"kind": "ts", "g": g, "qs": all_queries(g["V"]), "ts": {"nv": 2, "L": L, "lags": lags}}
+        c = {"kind": "ts", "g": g, "qs": all_queries(g["V"]), "ts": {"nv": 2, "L": L, "lags": lags}}
+        yield _rep(c, rng) if i % 4 == 0 else c
 
 
 def encode(case):
@@ -162,14 +189,9 @@ def to_tspag(g, case):
     return P, lab, inv
 
 
-def run_impl(case):
+def run_queries(case, P, lab, inv):
     from pywhy_graphs.algorithms import pds, pds_path, pds_t, pds_t_path
     ts = bool(case.get("ts"))
-    if ts:
-        P, lab, inv = to_tspag(case["g"], case)
-    else:
-        P, lab, inv = gr.to_pag(case["g"], case)
-    before = gr.snapshot(P)
 
     def call(f, *a):
         try:
@@ -187,6 +209,14 @@ def run_impl(case):
                 r["pds_t"] = call(pds_t, lab(x), lab(y))
                 r["pds_t_path"] = call(pds_t_path, lab(x), lab(y))
             out.append(r)
+    return out
+
+
+def run_impl(case):
+    build = to_tspag if case.get("ts") else cu.build_pag
+    P, lab, inv = cu.warm_object(case, build, lambda P, lab, inv: run_queries(case, P, lab, inv))
+    before = gr.snapshot(P)
+    out = run_queries(case, P, lab, inv)
     return {"res": out, "mutated": gr.snapshot(P) != before}
 
 
@@ -246,7 +276,7 @@ def nontrivial(case, model):
 
 
 def key(case):
-    return gr.canon(case["g"])
+    return (gr.canon(case["g"]), case.get("rep"), case.get("falsy"))
 
 
 def shrink(case):
